@@ -1,7 +1,7 @@
 (* Witnesses: the full-strength statements of C10 and C16 fail on the faithful model, and each
    exclusion of the partial statements is needed (dropping it alone admits a violating run).
    Every witness is replayed on the implementation by harness/c10.py / harness/c16.py (corpus).
-   The witnesses of the defects repaired in /repo since (F-C10e, f, g, j) are kept as regressions:
+   The witnesses of the defects repaired in /repo since (F-C10d, e, f, g, j) are kept as regressions:
    the model of the repaired code satisfies every clause on them. *)
 From PahoV Require Import Base.Prelude Link.Conn Link.ConnCheck Link.ConnInv Link.ConnStatements.
 
@@ -19,18 +19,16 @@ Definition w_H := [O (TConnect true); O (TLoopRead (IConnack 0)); O (TConnect fa
 Lemma C10_connected_refuted : ~ C10_connected_full.
 Proof. intros H. specialize (H extloop w_H eq_refl). vm_compute in H. discriminate. Qed.
 
-(* F-C10d (open, narrowed to direct-write mode): publish() inside on_socket_open is written at once *)
-Definition w_D := [mkOp (TConnect true) [] (mkScr [] [] [[APublish0]] [] [] [] [] [])].
-Lemma C10_D_needed : c10_ops_sel false true direct_cb w_D = true /\ c10_wire_ok (optrace direct_cb w_D) = false.
+(* F-C10k (remainder of F-C10d): reconnect() inside on_socket_open: the outer reconnect() queues a second
+   CONNECT on the socket the inner one opened *)
+Definition w_D := [mkOp (TConnect true) [] (mkScr [] [] [[AReconnect true]] [] [] [] [] []); O TLoopWrite].
+Lemma C10_D_needed : c10_ops_sel false true extloop_cb w_D = true /\ c10_wire_ok (optrace extloop_cb w_D) = false.
 Proof. vm_compute. split; reflexivity. Qed.
 Lemma C10_wire_refuted : ~ C10_wire_full.
-Proof. intros H. specialize (H direct_cb w_D eq_refl). vm_compute in H. discriminate. Qed.
-(* ... in external-loop mode CONNECT is queued ahead of it (0ed8c5c); a reconnect() there still breaks the clause *)
+Proof. intros H. specialize (H extloop_cb w_D eq_refl). vm_compute in H. discriminate. Qed.
+(* ... publish()/disconnect() there are only queued, behind CONNECT (0ed8c5c, 9f497e7): the old F-C10d witnesses *)
+Definition w_D_old := [mkOp (TConnect true) [] (mkScr [] [] [[APublish0]] [] [] [] [] [])].
 Definition w_D_ext := [mkOp (TConnect true) [] (mkScr [] [] [[APublish0; ADisconnect]] [] [] [] [] []); O TLoopWrite].
-Definition w_D_ext_reconnect := [mkOp (TConnect true) [] (mkScr [] [] [[AReconnect true]] [] [] [] [] []); O TLoopWrite].
-Lemma C10_D_ext : c10_ops_ok extloop_cb w_D_ext = true /\ c10_wire_ok (optrace extloop_cb w_D_ext) = true
-  /\ c10_ops_sel false true extloop_cb w_D_ext_reconnect = true /\ c10_wire_ok (optrace extloop_cb w_D_ext_reconnect) = false.
-Proof. vm_compute. repeat split; reflexivity. Qed.
 
 (* F-C10i (open): disconnect() inside on_socket_unregister_write during a keepalive teardown: the result code
    was computed before; disconnect() inside on_socket_close while reconnect() replaces the socket: the new
@@ -58,7 +56,8 @@ Definition all_c10 (c : cfg) (ops : list op) : bool :=
   c10_ops_ok c ops && c10_connected_x_ok (optrace c ops) && c10_one_disconnect_ok (optrace c ops) && c10_wire_ok (optrace c ops).
 Lemma C10_repaired_witnesses :
   all_c10 direct w_E = true /\ all_c10 direct w_E2 = true /\ all_c10 direct w_F = true /\
-  all_c10 direct w_G = true /\ all_c10 direct w_C = true.
+  all_c10 direct w_G = true /\ all_c10 direct w_C = true /\
+  all_c10 direct_cb w_D_old = true /\ all_c10 extloop_cb w_D_ext = true.
 Proof. vm_compute. repeat split; reflexivity. Qed.
 
 (* F-C16a: reconnect() inside on_socket_unregister_write: the new socket is announced before the
